@@ -14,7 +14,14 @@ git checkout -q -- .
 PYTHONPATH="$WT/src" timeout 120 /venv/bin/python "$OUT/demo.py" >/dev/null 2>&1; D_WITHOUT=$?
 echo "tests with patch: $T_WITH | demo with patch rc=$D_WITH | demo without rc=$D_WITHOUT"
 cd /verif
-git -C /repo apply "$OUT/patch.diff" || { echo "patch does not apply to /repo"; exit 2; }
+if [ "${SCRATCH:-0}" = "1" ]; then
+  # run the checks against the sub-agent's own worktree (patch applied there) instead of patching /repo;
+  # harness/seeded_rerun.sh later repeats the run the official way (apply to /repo, check, undo)
+  (cd "$WT" && git apply "$OUT/patch.diff")
+  export FLATLAND_REPO="$WT" PYTHONPATH="$WT/src"
+else
+  git -C /repo apply "$OUT/patch.diff" || { echo "patch does not apply to /repo"; exit 2; }
+fi
 RES=""
 for c in "$PID" "$@"; do
   O=$(./check "$c" 2>&1); RC=$?
@@ -22,7 +29,7 @@ for c in "$PID" "$@"; do
   RES="$RES$c: rc=$RC $V| "
   echo "$O" | grep -a "^VIOLATION\|^\[$c\] \(ok\|VIOL\)"
 done
-git -C /repo checkout -q -- .
+if [ "${SCRATCH:-0}" = "1" ]; then unset FLATLAND_REPO PYTHONPATH; else git -C /repo checkout -q -- .; fi
 mkdir -p "seeded/$NAME"
 cp "$OUT/patch.diff" "seeded/$NAME/patch.diff"; cp "$OUT/demo.py" "seeded/$NAME/demo.py"; [ -f "$OUT/notes.md" ] && cp "$OUT/notes.md" "seeded/$NAME/notes.md"
 /venv/bin/python - "$PID" "$NAME" "$T_WITH" "$D_WITH" "$D_WITHOUT" "$RES" <<'PY'
